@@ -39,6 +39,7 @@ type Action struct {
 
 	started, done bool
 	resume        chan struct{}
+	waitingFor    any // non-nil while the action waits for Wake(key) (sync shim)
 }
 
 func (a *Action) String() string { return a.An.Name + "@" + a.Pkg.PkgPath }
@@ -68,6 +69,36 @@ type Sched struct {
 	actions []*Action
 	ld      *prog.Loaded
 	events  chan event
+	cur     *Action // the action that holds the token (nil while the scheduler itself runs)
+	// BeforeRun, if set, is called at the start of every execution, before any action runs (process-wide state
+	// the actions share is put back to its initial value there).
+	BeforeRun func()
+}
+
+// Point, Wait and Wake implement the sync shim's scheduler interface (hooks/verifsync): operations of the
+// analyzers' own synchronisation objects become scheduling points, and an action that cannot proceed is taken out
+// of the enabled set instead of blocking its goroutine.
+func (s *Sched) Point(what string) {
+	if a := s.cur; a != nil {
+		s.yield(a, what)
+	}
+}
+
+func (s *Sched) Wait(key any, what string) {
+	a := s.cur
+	if a == nil {
+		panic("sync shim: Wait outside of an action")
+	}
+	a.waitingFor = key
+	s.yield(a, "wait:"+what)
+}
+
+func (s *Sched) Wake(key any) {
+	for _, a := range s.actions {
+		if a.waitingFor == key {
+			a.waitingFor = nil
+		}
+	}
 }
 
 // Build constructs the action graph exactly as checker.Analyze does.
@@ -136,7 +167,12 @@ func (s *Sched) reset() {
 	for _, a := range s.actions {
 		a.res, a.err, a.diags, a.facts = nil, nil, nil, nil
 		a.started, a.done = false, false
+		a.waitingFor = nil
 		a.resume = make(chan struct{})
+	}
+	s.cur = nil
+	if s.BeforeRun != nil {
+		s.BeforeRun()
 	}
 }
 
@@ -219,11 +255,11 @@ func (s *Sched) Run(prefix []int) (*Exec, error) {
 	kind := "start"
 	for remaining > 0 {
 		var en []int
-		if running != nil && !running.done {
+		if running != nil && !running.done && running.waitingFor == nil {
 			en = append(en, running.ID)
 		}
 		for _, a := range s.actions {
-			if a.done || (running != nil && a == running) {
+			if a.done || (running != nil && a == running) || a.waitingFor != nil {
 				continue
 			}
 			ready := true
@@ -237,7 +273,13 @@ func (s *Sched) Run(prefix []int) (*Exec, error) {
 			}
 		}
 		if len(en) == 0 {
-			return nil, fmt.Errorf("deadlock: %d actions remain, none enabled", remaining)
+			var w []string
+			for _, a := range s.actions {
+				if a.waitingFor != nil {
+					w = append(w, a.String())
+				}
+			}
+			return nil, fmt.Errorf("deadlock: %d actions remain, none enabled (waiting: %v) after choices %v", remaining, w, x.Choices)
 		}
 		choice := 0
 		if i := len(x.Points); i < len(prefix) {
@@ -251,8 +293,10 @@ func (s *Sched) Run(prefix []int) (*Exec, error) {
 		act := s.actions[en[choice]]
 		act.started = true
 		running = act
+		s.cur = act
 		act.resume <- struct{}{}
 		ev := <-s.events
+		s.cur = nil
 		if ev.act != act {
 			return nil, fmt.Errorf("scheduler lost control: event from %s while %s holds the token", ev.act, act)
 		}
